@@ -196,8 +196,8 @@ Proof.
   set (errs1 := if _ && type_nonnull exp then [err_at p] else []).
   assert (H1 : map rstrip errs1 = errs1) by (subst errs1; destruct (_ && _); reflexivity).
   destruct (dkind_eqb (df_kind def) KScalar && negb (builtin_scalar_name (df_name def))); [symmetry; exact H1|].
-  set (errs2 := if value_conv_error _ then [err_at p] else []).
-  assert (H2 : map rstrip errs2 = errs2) by (subst errs2; destruct (value_conv_error _); reflexivity).
+  set (errs2 := if use_conv_error _ _ then [err_at p] else []).
+  assert (H2 : map rstrip errs2 = errs2) by (subst errs2; destruct (use_conv_error _ _); reflexivity).
   rewrite !map_app, H1, H2. f_equal. f_equal.
   destruct k; try reflexivity; try solve [crush_matches].
   destruct (negb (dkind_eqb (df_kind def) KInputObject)); [reflexivity|].
